@@ -44,8 +44,8 @@ CLAUSE = {"exc": "a call path raised a different exception type than the convers
           "disagree": "two call paths gave different outcomes for the same call"}
 
 # how many signatures of each family are replayed: (quick, thorough)
-QUOTA = {"sel": (26, 700), "sum": (8, 200), "wr": (5, 14), "rdi": (5, 13), "bump": (3, 10), "seterr": (1, 1),
-         "smake": (4, 11), "sget": (5, 33), "vsum": (12, 400)}
+QUOTA = {"sel": (26, 260), "sum": (8, 60), "wr": (5, 14), "rdi": (5, 13), "bump": (3, 10), "seterr": (1, 1),
+         "smake": (4, 11), "sget": (5, 33), "vsum": (12, 100)}
 
 
 VARIANTS = (("api_uge", "ApiIsRule"), ("ffi_zeroext", "FfiIsRule"), ("bool_range", "FfiIsRule"))
@@ -99,7 +99,10 @@ def sample_sigs(ctx, sigs):
 def key_of(sig, case, clause, path):
     fam = sig[0]
     types = ",".join(sig[1]) if fam in ("sel", "sum", "vsum") else (str(sig[1]) if len(sig) > 1 else "")
-    return "%s:%s:%s(%s)[%s]/%d" % (clause, path, fam, types, ",".join(case.get("classes", [])), case.get("nargs", 0))
+    nparams = len(G.arg_types(sig)) + (len(sig[1]) if fam == "vsum" else 0)
+    nargs = case.get("nargs", nparams)
+    argc = "ok" if nargs == nparams else "short" if nargs < nparams else "long"
+    return "%s:%s:%s(%s)[%s]/argc=%s" % (clause, path, fam, types, ",".join(case.get("classes", [])), argc)
 
 
 def run_cases(ctx, sigs, cls, vcls, ntuples, tag="m"):
@@ -166,8 +169,8 @@ def report(ctx, cases, meta, obs, records, bad, crashes):
 def run(ctx):
     sigs, cls, vcls = design_level(ctx)
     chosen = sample_sigs(ctx, sigs)
-    ntuples = 40 if ctx.quick else 100
-    batches = [chosen] if ctx.quick else [chosen[i::6] for i in range(6)]
+    ntuples = 40
+    batches = [chosen] if ctx.quick else [chosen[i::4] for i in range(4)]
     nrec = 0
     for bi, batch in enumerate(batches):
         cases, meta, obs, records, bad, crashes = run_cases(ctx, batch, cls, vcls, ntuples, tag="b%d" % bi)
